@@ -37,6 +37,9 @@ struct FitOut {
     inv: Vec<Vec<f64>>,
     transform_same: bool,
     targets_kept: bool,
+    /// predict_inplace into a junk-filled buffer, then again into the same (now used) buffer with another batch,
+    /// and the dataset calling form: all must give the bits of `predict` (what the property's scores are)
+    inplace_same: bool,
 }
 
 enum Res {
@@ -68,6 +71,23 @@ fn run_fit(x: &Array2<f64>, q: &Array2<f64>, k: usize, whiten: bool) -> Res {
         let transform_same = tds.records().shape() == ptrain.shape()
             && tds.records().iter().zip(ptrain.iter()).all(|(a, b)| a.to_bits() == b.to_bits());
         let targets_kept = tds.targets() == &targets && tds.weights().map_or(false, |w| w == weights.as_slice().unwrap());
+        let same_bits = |a: &Array2<f64>, b: &Array2<f64>| a.shape() == b.shape() && a.iter().zip(b.iter()).all(|(u, v)| u.to_bits() == v.to_bits());
+        let inplace_same = {
+            // multi-step sequence on one buffer: junk -> batch q -> (same shape) batch q reversed row order
+            let mut buf = Array2::<f64>::from_elem(pred.raw_dim(), 7.25);
+            model.predict_inplace(&q2, &mut buf);
+            let first = same_bits(&buf, &pred);
+            let qrev = q2.slice(ndarray::s![..;-1, ..]).to_owned();
+            let prev = model.predict(&qrev);
+            model.predict_inplace(&qrev, &mut buf);
+            let second = same_bits(&buf, &prev);
+            // a buffer that already holds the answer must come back unchanged
+            model.predict_inplace(&qrev, &mut buf);
+            let third = same_bits(&buf, &prev);
+            let dsq = DatasetBase::from(q2.clone());
+            let pds = model.predict(&dsq);
+            first && second && third && same_bits(&pds, &pred)
+        };
         Res::Ok(FitOut {
             mean: model.mean().to_vec(),
             sigma: model.singular_values().to_vec(),
@@ -78,6 +98,7 @@ fn run_fit(x: &Array2<f64>, q: &Array2<f64>, k: usize, whiten: bool) -> Res {
             inv: rows_of(&inv.view()),
             transform_same,
             targets_kept,
+            inplace_same,
         })
     });
     match r {
@@ -449,6 +470,10 @@ fn one_fit(out: &mut Out, id: u64, x: &[Vec<f64>], q: &[Vec<f64>], n: usize, p: 
             if !f.transform_same || !f.targets_kept {
                 let tr: Vec<&str> = tags.iter().map(|s| s.as_str()).collect();
                 out.rust_fail(id, 1 << 20, &tr, "Transformer::transform differs from predict on the records or drops the targets / weights", &format!("{{{}}}", desc_head));
+            }
+            if !f.inplace_same {
+                let tr: Vec<&str> = tags.iter().map(|s| s.as_str()).collect();
+                out.rust_fail(id, 1 << 23, &tr, "predict_inplace into a pre-filled or reused buffer (or predict on a dataset) differs from predict on the records: the scores depend on the calling form / on earlier calls", &format!("{{{}}}", desc_head));
             }
             let (has_svd, ss, sv) = match &svd {
                 Ok((s, v)) => (true, s.clone(), v.clone()),
